@@ -43,6 +43,10 @@ var Payloads = []Payload{
 	{"quote-unicode-escape", "\"", `"\u0022"`},
 	{"quote-octal-escape", "x\"\"y", `"x\042\042y"`},
 	{"close-comment-escape", "*)", `"\x2a\x29"`},
+	{"rune-quote", `is the '"' character`, ""},
+	{"rune-quote-pair", `'"' then "quoted" then '"'`, ""},
+	{"rune-quote-escaped", `'\"' and '"'`, ""},
+	{"single-quotes", `it's 'x' and ''`, ""},
 }
 
 // Placement names where a payload goes.
@@ -252,7 +256,7 @@ var LibraryNames = []string{"Skip", "Continue", "Break", "Fst", "Snd", "ref", "r
 // ---------------------------------------------------------------- payload kinds x syntactic contexts
 
 // ContextKinds are the ways a payload's text reaches the printer from inside a function body.
-var ContextKinds = []string{"strlit", "logprintf", "logprintln", "bodycomment", "panicmsg", "callarg", "structfield", "compare", "concat", "return"}
+var ContextKinds = []string{"strlit", "logprintf", "logprintln", "bodycomment", "panicmsg", "callarg", "structfield", "compare", "concat", "return", "logprintf-last", "fmtprintln-last", "comment-last", "logprintf-rune-arg"}
 
 // Contexts are the enclosing constructs the statement carrying the payload sits in; each is printed by a
 // different part of the printer (function literal, loop body, branches, method body, nested blocks).
@@ -270,6 +274,18 @@ func HostileContextPackage(name, kind, context string, p Payload) (*Package, boo
 		body = "log.Printf(" + lit + ", a)\ns = \"logged\""
 	case "logprintln":
 		body = "log.Println(" + lit + ", a)\ns = \"logged\""
+	case "logprintf-last":
+		// the logging call is the last statement of its block (nothing follows it inside the context)
+		body = "s = \"logged\"\nlog.Printf(" + lit + ", a)"
+	case "fmtprintln-last":
+		body = "s = \"printed\"\nlog.Println(" + lit + ")"
+	case "comment-last":
+		if !cok {
+			return nil, false
+		}
+		body = "s = \"commented\"\n// last " + ct
+	case "logprintf-rune-arg":
+		body = "log.Printf(" + lit + ", byte(a), '\"')\ns = \"logged\""
 	case "bodycomment":
 		if !cok {
 			return nil, false
